@@ -467,8 +467,8 @@ def run(repo, rep):
             continue
         n += 1
         inner = D.strip_ann(t)
-        rep.check(isinstance(inner, D.Lit) and inner.prov in ('base_repr(value)', 'repr(value)'), 'C01.f', 'pretty_int:literal-is-repr', pi.where,
-                  'int literal is the integer\'s repr', 'pretty_int prints %s' % D.show(t), nontrivial=True)
+        rep.check(isinstance(inner, D.Lit) and inner.prov in ('base_repr(value)', 'repr(value)', 'int.__repr__(value)', 'hex(value)', 'oct(value)', 'bin(value)'), 'C01.f', 'pretty_int:literal-is-repr', pi.where,
+                  'int literal is the integer\'s repr (or its hex / oct / bin form: literals of the same value)', 'pretty_int prints %s' % D.show(t), nontrivial=True)
     rep.floor('C01.f', n, 3)
 
 
